@@ -29,7 +29,7 @@ var commonAssumptions = []string{
 
 var props = map[string]propCfg{
 	"C19": {
-		Require: []string{"reports_checked", "status_calls_checked", "concurrent_status_calls_checked", "concurrent_connection_pairs_relayed", "bytes_relayed_client_to_server", "bytes_relayed_server_to_client", "messages_listed_in_reports", "sessions_with_message_log_switched_off", "upstream_stall_sessions", "upstream_stall_sessions_with_the_upload_held_up", "bulk_uploads", "reports_fetched_while_the_upload_was_held_up"},
+		Require: []string{"reports_checked", "status_calls_checked", "concurrent_status_calls_checked", "concurrent_connection_pairs_relayed", "bytes_relayed_client_to_server", "bytes_relayed_server_to_client", "messages_listed_in_reports", "sessions_with_message_log_switched_off", "upstream_stall_sessions", "upstream_stall_sessions_with_the_upload_held_up", "bulk_uploads", "reports_fetched_while_the_upload_was_held_up", "sessions_with_server_half_close"},
 		Race:    true, BinRace: true, QuickBatches: 5, ThoroughBatches: 40, Parallel: 5, Bins: []string{"proxy"}, Level: "exploration", Floor: 20,
 		Rule:        "(a) sessions against the real proxy binary (race detector, built from the current tree) on TCP loopback: the harness is the upstream server, the client and the HTTP poller; 1-3 sequential connections per proxy process and, in every second session, two connections at the same time (relay equality per connection); client->server and server->client streams (up to 64 kB per session) made of valid frames, CRC-valid frames with malformed content (short MSM, oversize masks), hostile mixes, random bytes, and text/frames spelling HTML (<script>, </div>, <img ...>); chunk sizes {1,17,512,4096,random} with 0-2 ms gaps. Oracle: upstream-received = client-sent and client-received = server-sent per connection; the process is alive after every session (a death is reported with its panic/race text; a silent stall is judged from the SIGQUIT goroutine dump, otherwise inconclusive); every /status/report body is matched against the pinned page template and its five traffic-derived parts must contain no raw '<' or '>'; the messages listed (parsed back from their hex dumps) must be at most 20 and a contiguous run, in order, of the same build's sequential framing of the bytes sent so far. the status page is polled continuously while traffic flows. (b) in process: ReportFeed.Status over a 20-message queue and client/server buffers filled from such traffic, same checks plus list length; (c) in process: the queue fed round after round while two goroutines produce status reports and one records buffers, every report checked, a deadlock judged logically. Non-trivial: every session / Status call (all carry mixed traffic). Distinct by hash of the case.",
 		Assumptions: commonAssumptions,
@@ -47,7 +47,7 @@ var props = map[string]propCfg{
 		Assumptions: commonAssumptions,
 	},
 	"C11": {
-		Require: []string{"complete_at_return", "process_output_complete", "cases_with_a_closable_writer"},
+		Require: []string{"complete_at_return", "process_output_complete", "cases_with_a_closable_writer", "cases_with_an_eof_tolerance"},
 		BinRace: true, QuickBatches: 8, ThoroughBatches: 48, Parallel: 8, Bins: []string{"rtcmfilter", "displayrtcm3"}, AppTests: []string{"rtcmfilter", "displayrtcm3"}, Level: "exploration", Floor: 40,
 		Rule:        "in process (overlay-added test in each application's package main, race detector on): HandleMessages is called with a writer that completes each Write only after a delay (none / yields / 20 us - 1.5 ms sleep / blocks 5 ms per call) and counts completed bytes; the bytes completed are snapshotted by the calling goroutine in the statement after the call returns - no waiting is part of the verdict: a strict prefix of the full expected output = violation, equal = held. Expected output from the same build sequentially: headings + String()+newline of every message (displayrtcm3) or the valid frames (rtcmfilter). Inputs with 1..200 messages ending in a valid frame / junk / truncated frame; GOMAXPROCS in {1,2,16}. Plus process-level runs of both real binaries over finite files with stdout read fast or through a small slow pipe: the bytes that reach the pipe before exit are compared the same way. Non-trivial: non-empty input and a writer that is not instantaneous. Distinct by hash of the case.",
 		Assumptions: commonAssumptions,
@@ -71,7 +71,7 @@ var props = map[string]propCfg{
 		Assumptions: commonAssumptions,
 	},
 	"C09": {
-		Require: []string{"messages_received_by_consumers", "hook_events", "sources_processed", "runs_with_empty_reads", "runs_with_silent_source", "runs_with_a_consumer_held_up_once", "runs_with_interruption_after_a_held_up_consumer", "runs_with_io_timeout_interruptions", "runs_with_a_long_consumer_list"},
+		Require: []string{"messages_received_by_consumers", "hook_events", "sources_processed", "runs_with_empty_reads", "runs_with_silent_source", "runs_with_a_consumer_held_up_once", "runs_with_interruption_after_a_held_up_consumer", "runs_with_io_timeout_interruptions", "runs_with_a_long_consumer_list", "runs_with_many_empty_reads_in_a_row", "runs_ending_with_a_read_error"},
 		Race:    true, QuickBatches: 16, ThoroughBatches: 96, Parallel: 8, Level: "exploration", Floor: 40,
 		Rule:        "pipeline runs of the real file handler + fan-out (appcore.HandleMessagesUntilEOF) under the race detector: inputs are the captured batches and generated clean/hostile streams (200 B - 12 kB); the reader delivers chunks of 1..{1,2,7,64,500,5000} bytes with yield/sleep profiles; 1-4 consumer channels with capacities {0,1,4,64}, nil entries at any index and fast/yielding/slow(50us-2ms)/bursty consumers; GOMAXPROCS in {1,2,3,4,8,16}; check-time yield/sleep hooks before every channel operation of file_handler, handler, pushback and appcore (5 profiles). Oracle: every non-nil consumer's (type, raw bytes) sequence equals the same build's sequential framing of the same bytes; raw bytes do not change after delivery; the call returns 0; afterwards no goroutine with a frame in the four pipeline files remains (blocked in every sample for 200 ms = violation, still runnable = inconclusive); double close / send on closed channel / race report end the child. Non-trivial: >=2 real consumers, >=10 messages and a perturbation active. Distinct by hash of (input, reader, consumers, GOMAXPROCS, hook profile, seed).",
 		Assumptions: commonAssumptions,
@@ -144,7 +144,7 @@ var props = map[string]propCfg{
 		Assumptions: commonAssumptions,
 	},
 	"C14": {
-		Require:      []string{"large_buffer_extractions", "refilled_buffer_extractions", "concurrent_extractions"},
+		Require:      []string{"large_buffer_extractions", "refilled_buffer_extractions", "concurrent_extractions", "shared_buffer_extractions", "extractions_from_read_only_memory"},
 		QuickBatches: 8, ThoroughBatches: 64, Parallel: 16, Level: "exploration", Floor: 1000, MayBeExhaustive: true,
 		Rule:        "structured part: every alignment (pos mod 8 in 0..7) x every width 1..64 (signed 2..64) x byte offsets {0,1,7} x patterns {all 0, all 1, walking 1, walking 0, min of width, max of width, 0xAA, 0x55}, each compared with a math/big extraction and re-run on a copy with all outside bits complemented; plus seeded random (buffer,pos,width) triples. A case is non-trivial when the field is not all-zero bits and does not start on a byte boundary or spans more than one byte; distinct by hash of (buffer,pos,width,signedness).",
 		Assumptions: commonAssumptions,
